@@ -14,6 +14,10 @@ def run(ctx):
             ("par", 250 if quick else 4000, 40, 11, []),
             ("data", 1, 20000 if quick else 0, 0, [])]
     r = codec.run_art("C02", ctx, runs)
-    violations, known = codec.verdict("C02", r)
+    def search():
+        # other seeds, three times as many cases
+        ctx2 = dict(ctx); ctx2["seed"] = ctx["seed"] + 7919
+        return codec.run_art("C02", ctx2, [(m, c * 3, n, so, ex) + tuple(rest) for (m, c, n, so, ex, *rest) in runs if m not in ("data",)])
+    violations, known = codec.verdict("C02", r, search=search)
     r.update({"violations": violations, "known": known})
     return r
